@@ -279,13 +279,14 @@ func (m *blueGreenReleaseManager) doCanaryJump(c *RolloutContext) (jumped bool) 
 // cleanup after rollout is completed or finished
 func (m *blueGreenReleaseManager) doCanaryFinalising(c *RolloutContext) (bool, error) {
 	blueGreenStatus := c.NewStatus.BlueGreenStatus
-	if blueGreenStatus == nil {
-		return true, nil
-	}
-	// rollout progressing complete, remove rollout progressing annotation in workload
+	// rollout progressing complete, remove rollout progressing annotation in workload; the webhook may have put it
+	// there although no release action has started yet (a release that is only being initialised)
 	err := removeRolloutProgressingAnnotation(m.Client, c)
 	if err != nil {
 		return false, err
+	}
+	if blueGreenStatus == nil {
+		return true, nil
 	}
 
 	tr := newTrafficRoutingContext(c)
